@@ -151,6 +151,21 @@ theorem C08_guards_constructors (v : Int) (d : Bytes) (s : Bool) (env : Env) :
     rw [run_guardsOf, show guardsOf Gen.Guards.DelimiterCodec = expDelimiterCodec from rfl]
     exact expDelimiterCodec_sem d v s env h1 h2
 
+/-- `exactReader.Read` as the source states it (extracted on every run) makes the four decisions of the
+    call-level model `ExactR.read`: early `(0, io.EOF)` iff the counter is not positive; the buffer is
+    shortened iff it is longer than the counter; the counter goes down by what the underlying Read
+    returned; `io.EOF` becomes `io.ErrUnexpectedEOF` iff the counter is still positive -/
+theorem C08_guards_exact_reader (n : Int) (plen : Nat) (env : Env)
+    (h1 : env.var "e.n" = n) (h2 : env.len "p" = plen) (hp : (plen : Int) < 2^63) :
+    Gen.Guards.exactReader_Read = expExactRead ∧
+    (GE.eval env (.bin "<=" (.var "e.n") (.lit 0)) ≠ 0 ↔ n ≤ 0) ∧
+    (GE.eval env (.bin ">" (.conv "int64" (.len "p")) (.var "e.n")) ≠ 0 ↔ (plen : Int) > n) ∧
+    (∀ (k errc eofc ueofc : Int) (env' : Env), env'.var "e.n" = n → env'.var "n" = k → env'.var "err" = errc →
+      env'.opq "io.EOF" = eofc → env'.opq "io.ErrUnexpectedEOF" = ueofc → I64 k → I64 (n - k) →
+      (run (Gen.Guards.exactReader_Read.drop 3) env').map (fun e => (e.var "e.n", e.var "err")) =
+        some (n - k, if errc = eofc ∧ n - k > 0 then ueofc else errc)) :=
+  ⟨rfl, expExactRead_sem n plen env h1 h2 hp⟩
+
 -- the guards bite: a length field of 2000 against a maximum of 1024 is refused, 10 is accepted
 example : lfFrameLength { big := true, max := 1024, offset := 0, fieldLen := 2, adj := 0, strip := 0 } 2000 = none := by decide
 example : lfFrameLength { big := true, max := 1024, offset := 0, fieldLen := 2, adj := 0, strip := 0 } 10 = some 12 := by decide
@@ -177,6 +192,42 @@ theorem C08_exact_reader_call_by_call (fin : RErr) (sizes : List Nat) (n : Nat) 
   refine ⟨h1, ?_, ?_⟩
   · have := h3 (by omega); omega
   · intro he; have := h4 he; have := h3 (by omega); omega
+
+/-- **the call-level reader refines the frame-level summary**: whenever a consumer's loop over the exact
+    reader is ended by an error — with whatever buffer sizes it read — the outcome is the one `drainExact`
+    (the frame body of `Model/Frame.lean`, on which every C04 / C08 decoder theorem rests) states: a clean
+    end with exactly the first `n` bytes, or the premature-end error; and the source is left at the same
+    position -/
+theorem C08_exact_reader_refines_frame_model (fin : RErr) (sizes : List Nat) (n : Nat) (cs : List Bytes)
+    (d : Bytes) (n' : Int) (rest : List Bytes) (e : RErr)
+    (h : consume read fin sizes [] (n : Int) cs = (d, n', rest, some e)) :
+    (drainExact { pre := [], lim := n } cs fin).1 = (if e = .eof then .msg d else .raise e) ∧
+    (drainExact { pre := [], lim := n } cs fin).2.flatten = rest.flatten := by
+  have inv := consume_inv fin sizes [] (n : Int) cs
+  have out := consume_outcome fin sizes [] (n : Int) cs e
+  rw [h] at inv out
+  simp only [List.nil_append, List.length_nil] at inv out
+  obtain ⟨i1, i2, i3, i4⟩ := inv
+  have hn' := i3 (by omega)
+  have hsnd : (drainExact { pre := [], lim := n } cs fin).2 = (readN cs n).2 := by
+    simp only [drainExact]; split <;> rfl
+  have hfst : (readN cs n).1 = cs.flatten.take n := readN_fst cs n
+  by_cases he : e = .eof
+  · have hz := i4 (by rw [he])
+    have hdl : d.length = n := by omega
+    have htake : cs.flatten.take n = d := by rw [← i1, ← hdl]; simp
+    have hdrop : cs.flatten.drop n = rest.flatten := by rw [← i1, ← hdl]; simp
+    refine ⟨?_, by rw [hsnd, readN_snd, hdrop]⟩
+    simp only [drainExact, hfst, htake, hdl, he, List.nil_append, ite_true]
+  · obtain ⟨o1, o2, o3⟩ := out trivial he
+    subst o1
+    have hd : cs.flatten = d := by rw [← i1]; simp
+    have htake : cs.flatten.take n = d := by rw [hd]; exact List.take_of_length_le (by omega)
+    have hdrop : cs.flatten.drop n = [] := by rw [hd]; exact List.drop_of_length_le (by omega)
+    have hne : d.length ≠ n := by omega
+    refine ⟨?_, by rw [hsnd, readN_snd, hdrop]; simp⟩
+    simp only [drainExact, hfst, htake, hne, he, ite_false]
+    rw [o3]
 
 /-- the pinned reader (io.LimitReader): 2 bytes of a frame declared as 10, then a clean end -/
 theorem C08_exact_reader_pinned_truncates :
@@ -206,3 +257,5 @@ end NettyVerif.C08
 #print axioms NettyVerif.C08.C08_guards_constructors
 #print axioms NettyVerif.C08.C08_exact_reader_call_by_call
 #print axioms NettyVerif.C08.C08_exact_reader_pinned_truncates
+#print axioms NettyVerif.C08.C08_exact_reader_refines_frame_model
+#print axioms NettyVerif.C08.C08_guards_exact_reader
